@@ -232,5 +232,8 @@ func RunConns() []ConnRec {
 			rs = append(rs, runConn(tr, c[0], c[1]))
 		}
 	}
+	for _, c := range [][2]int{{0, 1}, {2, 1}, {3, 2}, {1, 0}} {
+		rs = append(rs, runChurn(c[0], c[1], 150*time.Millisecond))
+	}
 	return rs
 }
